@@ -28,6 +28,8 @@ impl FilterChain {
 
         // apply all specified filters
         for filter in &self.filters {
+            #[cfg(feature = "verif-hooks")]
+            crate::verif::yield_point("filter.evaluate");
             entry = ValueCow::Owned(
                 filter
                     .evaluate(entry.as_view(), runtime)
